@@ -439,6 +439,11 @@ def run_case(case):
             if d is None and nv == [11, -22, 33]:
                 return Outcome(True, labels=sorted(labels | {"wraparound_accepted"}), nontrivial="neighbour_within_8" in labels)
             return fail("wraparound_write_corrupts", f"{kind} {mu}: {d or nv or got}", kind, labels)
+        if "wrong_length_data_into_bound_ref_slot" in labels:
+            # data given to a reference slot BUILDS a new target; whether the constructor of the target type takes data of
+            # another length is not among the operations the statement lists (an "update" of an existing array is).  Only
+            # the refused case is judged (nothing may have changed, the slot still denotes its old target).
+            return Outcome(True, labels=sorted(labels | {"rebind_accepted_by_constructor"}), nontrivial=False)
         return fail("accepted_silently", f"{kind} {mu}: the operation returned {_safe_repr(r)} instead of raising", kind, labels)
     if is_raised(got):
         return fail("raised_but_object_unreadable", f"{kind}: {r}; then {got}", kind, labels)
